@@ -6,6 +6,7 @@
  * stdout: one JSON line per case.
  */
 #include "hcommon.h"
+#include <fcntl.h>
 #include <dbus/dbus-internals.h>
 #include <dbus/dbus-string.h>
 #include <dbus/dbus-message-internal.h>
@@ -39,7 +40,14 @@ static void do_demarshal (const char *hex)
   free (buf);
 }
 
+static void do_loader_fds (long maxsize, const char *hex, const char *chunks, int nfds);
+
 static void do_loader (long maxsize, const char *hex, const char *chunks)
+{
+  do_loader_fds (maxsize, hex, chunks, 0);
+}
+
+static void do_loader_fds (long maxsize, const char *hex, const char *chunks, int nfds)
 {
   unsigned char *buf = NULL;
   long n = hc_unhex (hex, &buf);
@@ -53,6 +61,15 @@ static void do_loader (long maxsize, const char *hex, const char *chunks)
   if (n < 0) { printf ("{\"k\":\"bad-input\"}\n"); return; }
   loader = _dbus_message_loader_new ();
   if (maxsize > 0) _dbus_message_loader_set_max_message_size (loader, maxsize);
+  if (nfds > 0)
+    {
+      /* descriptors arrive with the first byte, as over a unix socket with SCM_RIGHTS */
+      int *fds = NULL; unsigned max_fds = 0; int i;
+      if (!_dbus_message_loader_get_unix_fds (loader, &fds, &max_fds)) { fprintf (stderr, "oom\n"); exit (3); }
+      if ((unsigned) nfds > max_fds) nfds = (int) max_fds;
+      for (i = 0; i < nfds; i++) fds[i] = open ("/dev/null", O_RDONLY | O_CLOEXEC);
+      _dbus_message_loader_return_unix_fds (loader, fds, (unsigned) nfds);
+    }
   printf ("{\"k\":\"L\",\"msgs\":[");
   {
     /* we need to print trace after msgs; collect trace in a buffer */
@@ -125,6 +142,19 @@ int main (void)
           if (*p) { *p++ = 0; }
           chunks = p;
           do_loader (maxsize, hex, chunks);
+        }
+      else if (line[0] == 'F' && line[1] == ' ')
+        {
+          /* F <nfds> <hex> <chunks>: loader that already holds nfds received descriptors */
+          char *p = line + 2;
+          long nfds = strtol (p, &p, 10);
+          char *hex, *chunks;
+          while (*p == ' ') p++;
+          hex = p;
+          while (*p && *p != ' ') p++;
+          if (*p) { *p++ = 0; }
+          chunks = p;
+          do_loader_fds (0, hex, chunks, (int) nfds);
         }
       else
         printf ("{\"k\":\"bad-line\"}\n");
